@@ -150,7 +150,9 @@ def corruptions(cmd, a0, a1, payload):
   else:
     out.append(('len-field:+1', [fk.header(cmd, a0, a1, payload, length=1), '']))
     out.append(('checksum:+1', [fk.header(cmd, a0, a1, payload, csum=1)]))
-  for w in (0, 0xFFFFFFFF, fk.cmd_word(cmd) ^ 0x20, fk.cmd_word(cmd) + 1, int.from_bytes(b'XXXX', 'little')):
+  # words of the other protocol layers spoken over the same wire (filesync, fastboot) are not ADB commands either
+  other_layers = [int.from_bytes(wd, 'little') for wd in (b'STAT', b'LIST', b'SEND', b'RECV', b'DENT', b'DONE', b'DATA', b'FAIL', b'QUIT', b'INFO')]
+  for w in [0, 0xFFFFFFFF, fk.cmd_word(cmd) ^ 0x20, fk.cmd_word(cmd) + 1, int.from_bytes(b'XXXX', 'little')] + other_layers:
     if w.to_bytes(4, 'little') not in [c.encode() for c in fk.COMMANDS]:
       out.append(('unknown-command:%08x' % w, [fk.header(cmd, a0, a1, payload, word=w)] + ([payload] if L else [])))
   for n in range(0, 24):
